@@ -980,15 +980,27 @@ func init() {
 				}
 				key := "xpkg/" + name
 				s.OK(key+"/compared", c.P.Pos(pos), "canonicalizer compares errors.Type(err) with errors."+name)
+				badSite := ""
+				var badPos token.Pos
+				inMachine := func(st *handlerSite) bool {
+					_, ok := BuildSM(c).SiteInMachine(c, st.Caller, st.Call)
+					return ok
+				}
+				for _, st := range sites {
+					switch {
+					case !st.FailKnown || !st.Failure:
+						badSite, badPos = "a site emitting errors."+name+" is not failure-flagged", st.Call.Pos()
+					case st.Caller.Name() != "BasicParser" && !inMachine(st):
+						badSite, badPos = "errors."+name+" is emitted outside BasicParser", st.Call.Pos()
+					}
+				}
 				switch {
-				case len(sites) != 1:
-					s.Bad(key+"/emitted", c.P.Pos(pos), fmt.Sprintf("errors.%s is emitted at %d handler sites, want exactly 1", name, len(sites)))
-				case !sites[0].FailKnown || !sites[0].Failure:
-					s.Bad(key+"/emitted", c.P.Pos(sites[0].Call.Pos()), "the site emitting errors."+name+" is not failure-flagged")
-				case sites[0].Caller.Name() != "BasicParser":
-					s.Bad(key+"/emitted", c.P.Pos(sites[0].Call.Pos()), "errors."+name+" is emitted outside BasicParser")
+				case len(sites) == 0:
+					s.Bad(key+"/emitted", c.P.Pos(pos), fmt.Sprintf("errors.%s is compared with but never emitted", name))
+				case badSite != "":
+					s.Bad(key+"/emitted", c.P.Pos(badPos), badSite)
 				default:
-					s.OK(key+"/emitted", c.P.Pos(sites[0].Call.Pos()), "one failure-flagged site in BasicParser")
+					s.OK(key+"/emitted", c.P.Pos(sites[0].Call.Pos()), fmt.Sprintf("%d failure-flagged site(s), all in the state machine", len(sites)))
 				}
 			}
 		},
@@ -1177,6 +1189,43 @@ func checkErrUse(f *ssa.Function, errVals []ssa.Value, m *errModel) (string, str
 						nonNil = iff.Block().Succs[1]
 					}
 					ret, ok := nonNil.Instrs[len(nonNil.Instrs)-1].(*ssa.Return)
+					if !ok && len(nonNil.Preds) == 1 {
+						// the non-nil branch branches again (`if failure { return "", err }; return input, err`): every way
+						// through it must end in a return that carries the error
+						allRet, carries := true, true
+						seenB := map[*ssa.BasicBlock]bool{}
+						var walk func(b *ssa.BasicBlock)
+						walk = func(b *ssa.BasicBlock) {
+							if seenB[b] {
+								return
+							}
+							seenB[b] = true
+							if b != nonNil && !nonNil.Dominates(b) {
+								allRet = false
+								return
+							}
+							if r, isRet := b.Instrs[len(b.Instrs)-1].(*ssa.Return); isRet {
+								if ei < 0 || !aliasOrPhiOf(r.Results[ei], alias) {
+									carries = false
+								}
+								return
+							}
+							for _, ins := range b.Instrs {
+								switch ins.(type) {
+								case *ssa.Call, *ssa.Store, *ssa.Panic, *ssa.Go, *ssa.Defer:
+									allRet = false // it does something on the way: not the plain abort idiom
+								}
+							}
+							for _, sc := range b.Succs {
+								walk(sc)
+							}
+						}
+						walk(nonNil)
+						if allRet && carries && len(seenB) > 1 {
+							tested = true
+							continue
+						}
+					}
 					if !ok {
 						// accepted idiom: the non-nil branch hands the error as cause to a failure-flagged handler call
 						// (that call site is an obligation of its own and must abort)
@@ -1239,7 +1288,30 @@ func aliasOrPhiOf(v ssa.Value, alias map[ssa.Value]bool) bool {
 			return true
 		}
 	}
-	return false
+	// a merge of error values one of which is ours (`return nil, err` behind several tests of err)
+	seen := map[ssa.Value]bool{}
+	var rec func(v ssa.Value) bool
+	rec = func(v ssa.Value) bool {
+		if alias[v] {
+			return true
+		}
+		if seen[v] {
+			return false
+		}
+		seen[v] = true
+		switch x := v.(type) {
+		case *ssa.Phi:
+			for _, e := range x.Edges {
+				if rec(e) {
+					return true
+				}
+			}
+		case *ssa.ChangeInterface:
+			return rec(x.X)
+		}
+		return false
+	}
+	return rec(v)
 }
 
 // hasRetry: the function re-parses a concatenated text (the default-scheme retry idiom, governed by OPT-retry).
